@@ -10,6 +10,7 @@ if log and os.path.exists(log):
         if m:
             verdicts.setdefault(m.group(1), {})[m.group(2)] = {"exit": int(m.group(3)), "violations": int(m.group(4)), "first": m.group(5)[:220]}
 base = '/verif/seeded'
+not_expected = json.load(open(os.path.join(base, 'not_expected.json'))) if os.path.exists(os.path.join(base, 'not_expected.json')) else {}
 rows = []
 for d in sorted(os.listdir(base)):
     p = os.path.join(base, d)
@@ -37,6 +38,8 @@ for d in sorted(os.listdir(base)):
         "detected_by": det,
         "caught": any(v.get("exit") == 1 for v in det.values()),
     }
+    if d in not_expected:
+        meta["not_expected_to_be_caught"] = not_expected[d]
     json.dump(meta, open(os.path.join(p, 'meta.json'), 'w'), indent=1)
     rows.append((d, prop, conf.get('suite_with_change'), conf.get('demo_with_change'), conf.get('demo_without_change'), ', '.join('%s:%s' % (k, 'caught' if v['exit'] == 1 else ('build-error' if v['exit'] == 2 else 'MISSED')) for k, v in sorted(det.items()))))
 print('| change | property | suite with change | demo with | demo without | checks |')
